@@ -106,7 +106,7 @@ func evalC18(c *engine.Case) engine.Verdict {
 		reps = 1
 	}
 	w := gc.Weights()
-	d := engine.FloydWarshall(gc.N, w)
+	ref := engine.SingleSource(gc.N, w, gc.Src)
 	for rep := 0; rep < reps && v.Fail == ""; rep++ {
 		g, vs := gc.Build()
 		var o engine.Outcome
@@ -117,19 +117,19 @@ func evalC18(c *engine.Case) engine.Verdict {
 			v.Failf("Dijkstra panicked: %s", o.Panic)
 			break
 		}
-		checkPaths(&v, "Dijkstra", g, vs, w, gc.Src, d[gc.Src], dist, edgeTo, false)
+		checkPaths(&v, "Dijkstra", g, vs, w, gc.Src, ref, dist, edgeTo, false)
 	}
 	// classification
 	reach, multiPred, longer, unreachable := 0, false, false, 0
 	for t := 0; t < gc.N; t++ {
-		if d[gc.Src][t] == engine.Inf {
+		if ref[t] == engine.Inf {
 			unreachable++
 			continue
 		}
 		reach++
 		preds := 0
 		for e := range w {
-			if e[1] == t && e[0] != t && d[gc.Src][e[0]] != engine.Inf {
+			if e[1] == t && e[0] != t && ref[e[0]] != engine.Inf {
 				preds++
 			}
 		}
@@ -137,7 +137,7 @@ func evalC18(c *engine.Case) engine.Verdict {
 			multiPred = true
 		}
 		// a cheaper multi-edge route than the direct edge
-		if wt, ok := w[[2]int{gc.Src, t}]; ok && d[gc.Src][t] < wt {
+		if wt, ok := w[[2]int{gc.Src, t}]; ok && ref[t] < wt {
 			longer = true
 		}
 	}
